@@ -714,6 +714,9 @@ func main() {
 	deps := []dep{
 		{"github.com/cenkalti/backoff/v5", "v5.0.3", "github.com/cenkalti/backoff/v5@v5.0.3", "backoff"},
 		{"github.com/patrickmn/go-cache", "v2.1.0+incompatible", "github.com/patrickmn/go-cache@v2.1.0+incompatible", "gocache"},
+		// (x/sync: only the singleflight package is rewritten - its callers wait on its WaitGroup and its mutex, which the
+		// scheduler has to see; errgroup is replaced at the call sites by the verrgroup stand-in)
+		{"golang.org/x/sync", "v0.19.0", "golang.org/x/sync@v0.19.0", "xsync"},
 	}
 	var replaces strings.Builder
 	for _, d := range deps {
@@ -726,7 +729,11 @@ func main() {
 		if _, err := os.Stat(filepath.Join(dst, "go.mod")); err != nil {
 			os.WriteFile(filepath.Join(dst, "go.mod"), []byte("module "+d.mod+"\n"), 0o644)
 		}
-		for _, path := range goFilesOf(dst) {
+		files := goFilesOf(dst)
+		if d.name == "xsync" {
+			files = goFilesOf(filepath.Join(dst, "singleflight"))
+		}
+		for _, path := range files {
 			base := filepath.Base(path)
 			opt := options{}
 			if d.name == "gocache" {
